@@ -1,8 +1,17 @@
 package fullx
 
 import (
+	"context"
+	"fmt"
+	"sync"
+	"time"
+
+	"github.com/gopcua/opcua"
+	"github.com/gopcua/opcua/server"
+	"github.com/gopcua/opcua/ua"
 	"verif/scenarios/chanx"
 	"verifrt/driver"
+	"verifrt/vrt"
 )
 
 // C36: concurrent use of a client, of a secure channel and of the server never
@@ -10,8 +19,79 @@ import (
 // and C34 are re-run in a -race build: the Go race detector, fed with exactly the
 // program's own happens-before edges by the shims, judges every explored schedule.
 
+// c36NotifyBody: the application reports a value change of a node (NodeNameSpace.ChangeNotification) while a client
+// deletes and re-creates its monitored item on that same node: the server-side bookkeeping of monitored items is
+// touched from the application's goroutine and from the server's dispatcher at the same time.
+func c36NotifyBody() func() {
+	return func() {
+		ctx := context.Background()
+		e := startServer(ctx, 1)
+		c := connect(ctx)
+		ch := make(chan *opcua.PublishNotificationData, 64)
+		go func() {
+			for range ch {
+			}
+		}()
+		sub, err := c.Subscribe(ctx, &opcua.SubscriptionParameters{Interval: 100 * time.Millisecond}, ch)
+		if err != nil {
+			panic(err)
+		}
+		mk := func(h uint32) uint32 {
+			res, err := sub.Monitor(ctx, ua.TimestampsToReturnBoth, opcua.NewMonitoredItemCreateRequestWithDefaults(e.nodeID(0), ua.AttributeIDValue, h))
+			if err != nil || len(res.Results) != 1 {
+				panic(fmt.Sprint("monitor: ", err))
+			}
+			return res.Results[0].MonitoredItemID
+		}
+		id1 := mk(1)
+		mk(2)
+		vrt.Settle()
+		vrt.BeginWindow()
+		var wg sync.WaitGroup
+		wg.Add(2)
+		go func() { // the application
+			defer wg.Done()
+			e.ns.SetAttribute(e.nodeID(0), ua.AttributeIDValue, server.DataValueFromValue(int32(7)))
+			e.ns.ChangeNotification(e.nodeID(0))
+		}()
+		go func() { // the client
+			defer wg.Done()
+			sub.Unmonitor(ctx, id1)
+			mk(3)
+		}()
+		wg.Wait()
+		vrt.EndWindow()
+		c36NotifyDone = true
+	}
+}
+
+var c36NotifyDone bool
+
+func c36NotifyCheck(x *vrt.Exec) (string, string, string) {
+	if out, sig, detail, failed := fail(x); failed {
+		return out, sig, detail
+	}
+	return "done", "", ""
+}
+
 func c36Scenarios(thorough bool) []driver.Scenario {
 	var out []driver.Scenario
+	// the conflicting accesses only overlap when the application is delayed inside its call (one delay: the client
+	// runs instead, its delete is dispatched, then the application goes on)
+	notify := driver.Scenario{
+		Name:     "c36/server/change-notification-vs-delete-and-create-of-monitored-items",
+		Cfg:      vrt.Config{Horizon: int64(10 * time.Minute), MaxSteps: 3000000, DelayBounded: true, TimersFirst: true},
+		Body:     c36NotifyBody(),
+		Check:    c36NotifyCheck,
+		Bound:    1,
+		RaceOnly: true,
+		MaxExec:  80,
+	}
+	// every execution starts a server (node set import under the race detector: seconds): the complete delay bound 1
+	// (about 600 executions) fits the thorough tier only; the quick tier runs a small share of it at the end
+	if thorough {
+		out = append(out, notify)
+	}
 	take := func(scs []driver.Scenario, keep func(i int, s driver.Scenario) bool, bound int) {
 		for i, s := range scs {
 			if !keep(i, s) {
@@ -63,7 +143,9 @@ func c36Scenarios(thorough bool) []driver.Scenario {
 	}, b)
 	take(chanx.Scenarios("C19", false), func(i int, _ driver.Scenario) bool { return i == 0 || i == 5 }, b)
 	for i := range out {
-		out[i].MaxExec = 150 // per worker: the quick tier spreads its budget over all scenario families
+		if out[i].Name != notify.Name {
+			out[i].MaxExec = 150 // per worker: the quick tier spreads its budget over all scenario families
+		}
 	}
 	n := len(out)
 	take(c34Scenarios(false), first(1), b)
@@ -100,5 +182,7 @@ func c36Scenarios(thorough bool) []driver.Scenario {
 			kept = append(kept, s)
 		}
 	}
+	notify.MaxExec = 4
+	kept = append(kept, notify)
 	return kept
 }
